@@ -1,4 +1,5 @@
 import TCV.Lemmas.StoreFrame
+import TCV.Lemmas.StoreOnce
 /-!
 # C04 — each computation runs at most once, and only on demand (machine level)
 -/
@@ -55,5 +56,81 @@ theorem second_request_runs_nothing (U : Universe) (f : Nat → List V → V) (f
               · cases h; simp [upd]
   obtain ⟨w, hw⟩ := Option.isSome_iff_exists.mp hmem
   exact ⟨w, served_from_memory U f fails' fuel' s1 i w hw⟩
+
+/-! ### at most once per storage location, over whole histories -/
+
+/-- operations of a history without forcing, failure and deletion: value requests (nothing fails) and inspections -/
+def Plain (fuel : Nat) : Op → Prop
+  | .value i failing => failing = [] ∧ i < fuel
+  | .inspect _ => True
+  | _ => False
+
+theorem step_plain (U : Universe) (f : Nat → List V → V) (lrk : Nat → Nat) (hst : Strat U lrk) (fuel : Nat)
+    (s : St V) (op : Op) (hp : Plain fuel op) (h : OnceInv U s) : OnceInv U (step U f fuel s op).1 := by
+  cases op with
+  | value i failing =>
+    obtain ⟨hf, hi⟩ := hp
+    subst hf
+    have : (fun j => ([] : List Nat).contains j) = nofail := by funext j; simp [nofail]
+    simp only [step, this]
+    exact onceInv_value U f lrk hst fuel s i hi h
+  | inspect i => exact h
+  | force i del => exact absurd hp (by simp [Plain])
+  | chainForce n S d r o => exact absurd hp (by simp [Plain])
+
+/-- **C04, history level.** Over ANY sequence of value requests (on arbitrary objects of arbitrarily many chains, in any
+order) and inspections on one data directory, starting from an empty store, no storage location of a persisting task is
+computed twice and no in-memory task object runs twice; everything that ran is available to all later requests.
+`Strat`: inputs precede dependants and locations are layered likewise (true for keys derived from input keys). -/
+theorem run_at_most_once (U : Universe) (f : Nat → List V → V) (lrk : Nat → Nat) (hst : Strat U lrk) (fuel : Nat) :
+    ∀ (ops : List Op) (s : St V), (∀ op ∈ ops, Plain fuel op) → OnceInv U s → OnceInv U (runOps U f fuel s ops).1
+  | [], s, _, h => h
+  | op :: ops, s, hp, h => by
+    simp only [runOps]
+    exact run_at_most_once U f lrk hst fuel ops _ (fun o ho => hp o (by simp [ho]))
+      (step_plain U f lrk hst fuel s op (hp op (by simp)) h)
+
+theorem run_at_most_once_from_empty (U : Universe) (f : Nat → List V → V) (lrk : Nat → Nat) (hst : Strat U lrk) (fuel : Nat)
+    (ops : List Op) (hp : ∀ op ∈ ops, Plain fuel op) :
+    (((runOps U f fuel (St.init : St V) ops).1).runs.map (tag U)).Nodup :=
+  (run_at_most_once U f lrk hst fuel ops St.init hp (onceInv_init U)).nodup
+
+/-- a request in such a history always succeeds and runs only what was unavailable when it started -/
+theorem runs_only_unavailable (U : Universe) (f : Nat → List V → V) (lrk : Nat → Nat) (hst : Strat U lrk) (fuel : Nat)
+    (s : St V) (i : Nat) (hi : i < fuel) (hnf : ∀ j, s.forced j = false) :
+    ∃ s' v new, value U f nofail fuel s i = (s', some v) ∧ s'.runs = s.runs ++ new ∧
+      (∀ j ∈ new, Unavail U s j) ∧ (∀ j ∈ new, j ≤ i) :=
+  let ⟨s', v, new, hv, a⟩ := acct_all U f lrk hst fuel s i hi hnf
+  ⟨s', v, new, hv, a.runs, a.unavail, fun j hj => (a.below j hj).1⟩
+
+/-! non-vacuity: the diamond universe with two chains sharing locations is stratified -/
+def exU : Universe :=
+  [{ loc := 1, persist := true, args := [], pulls := [], deps := [] },
+   { loc := 2, persist := true, args := [0], pulls := [], deps := [0] },
+   { loc := 3, persist := false, args := [], pulls := [0], deps := [0] },
+   { loc := 4, persist := true, args := [1], pulls := [2], deps := [1, 2] },
+   { loc := 1, persist := true, args := [], pulls := [], deps := [] },
+   { loc := 2, persist := true, args := [4], pulls := [], deps := [4] }]
+
+theorem ex_used (i : Nat) (h : 6 ≤ i) : (obj exU i).used = [] := by
+  unfold obj exU
+  rw [List.getD_eq_getElem?_getD, List.getElem?_eq_none (by simpa using h)]
+  rfl
+
+example : Strat exU (fun l => l) := by
+  have key : ∀ a : Fin 6, ∀ d ∈ (obj exU a.1).used, d < a.1 ∧ (obj exU d).loc < (obj exU a.1).loc := by decide
+  constructor
+  · intro i d hd
+    by_cases hi : i < 6
+    · exact (key ⟨i, hi⟩ d hd).1
+    · rw [ex_used i (by omega)] at hd; cases hd
+  · intro i d hd
+    by_cases hi : i < 6
+    · exact (key ⟨i, hi⟩ d hd).2
+    · rw [ex_used i (by omega)] at hd; cases hd
+
+/-- on it: object 5 (second chain) is served from what object 1 stored; nothing runs twice -/
+example : ((runOps exU (fun i xs => i + xs.length) 10 (St.init : St Nat)
+    [.value 3 [], .value 5 [], .value 3 [], .inspect 1]).1).runs = [0, 1, 3, 2] := by rfl
 
 end TCV.C04
